@@ -206,8 +206,8 @@ def install(reg):
                 itp.cx.assume(T.land(T.ge(kk, 0), T.lt(kk, e)))
             if itp.cx.branch(ng(tuple(ks)), "chkfinite: some element nan"):
                 raise PyRaise("ValueError", "array must not contain infs or NaNs")
-        if getattr(v, "nonfinite", None) is not None:
-            if itp.cx.branch(v.nonfinite, "chkfinite: input flagged non-finite"):
+        if v.buf.nonfinite is not None:
+            if itp.cx.branch(v.buf.nonfinite, "chkfinite: input flagged non-finite"):
                 raise PyRaise("ValueError", "array must not contain infs or NaNs")
         _trust(itp, "asarray_chkfinite raises ValueError on nan/inf")
         return v
@@ -626,6 +626,13 @@ def install(reg):
             keepdims = k.get("keepdims", False)
             if v.dtype == "bool" and name == "sum":
                 return _count(itp, v, axis)
+            ug = v.uninit_getter()
+            if ug is not None:
+                ks = [itp.cx.fresh("k", "int") for _ in v.shape]
+                hy = T.land(*[T.land(T.ge(kk, 0), T.lt(kk, e)) for kk, e in zip(ks, v.shape)])
+                c = ug(tuple(ks))
+                if c is not False:
+                    itp.cx.require(f"safe.initialised#{itp.cx.ordinal('safe.initialised')}", T.implies(hy, T.lnot(c)), "safe", f"reduction reads {v.buf.name} completely: every cell initialised")
             if axis is None:
                 if v.ndim == 0:
                     return wrap(v.get(()))
